@@ -202,6 +202,13 @@ func (g *gen) cond(d int) ex {
 				g.feats["match-concat"] = true
 				rhs += " + " + vlib.Pick(g.rng, []string{"Q", g.regex()})
 			}
+			if g.rng.Chance(25) {
+				// a right operand that is not a pattern: the checker converts it into
+				// one; a compound one keeps its parentheses (both operands of a match
+				// are primaries in the grammar)
+				g.feats["match-string-operand"] = true
+				rhs = vlib.Pick(g.rng, []string{`"a+"`, `("ab" + "cd")`, `("x" + "\\d" + "y")`, `("q" + "r")`})
+			}
 			return ex{"$s " + op + " " + rhs, 2}
 		default:
 			if e, ok := g.bin(vlib.Pick(g.rng, []string{"&&", "||"}), g.cond(d-1), g.cond(d-1)); ok {
